@@ -17,83 +17,102 @@ SEQ_NOTE = ('Trusted base: ASan/UBSan/_GLIBCXX_ASSERTIONS as crash oracles, the 
 CLAIMS = {
     'C01': ('vrt', 'stateless model checking of the implementation (preemption-bounded DFS + HB-prefix cache, unbounded for small harnesses)',
             'Every interleaving (bound 2 quick / 3 thorough; all interleavings for the two-resolver harnesses without waiter) of 1-3 competing resolvers '
-            'of every kind with a waiter and the final promise destruction is executed on the real future/promise; exactly-one-winner, payload, '
-            'stability, loser arguments, waiter result, value lifetime and heap are checked in each.', '5/C01'),
+            'of every kind (value, exception, drop, moved promise called / dying, move-assignment over it, async coroutine bound with start(promise)) with a '
+            'waiter (wait, coroutine, blocking and awaited has_value) and the final promise destruction, for int / instance-counted / move-only / void / '
+            'reference results, is executed on the real future/promise; exactly-one-winner, payload, stability, loser arguments and loser coroutine '
+            'untouched, waiter result, value lifetime and heap are checked in each.', '5/C01'),
     'C02': ('vrt', 'stateless model checking of the implementation (preemption-bounded DFS + HB-prefix cache; all interleavings for one waiter)',
-            'Every interleaving within the bound of 1-3 waiters of every kind (coroutine, wait, sync, callback awaiter, has_value, poller) against '
-            'every resolver kind; before/during/after-resolution subscription arises from the schedule. Exactly-once release, result at release, '
-            'no waiter left, no access to a dead awaiter (heap oracle) are checked in each execution.', '5/C02'),
+            'Every interleaving within the bound of 1-3 waiters of every kind (coroutine, wait, sync, pre-configured callback awaiter, callback function '
+            'through co_awaiter::await_suspend(fn,ctx), call_fn_future_awaiter, awaited has_value, poller) against every resolver kind (value, exception, '
+            'drop, promise destruction, completion of an async coroutine); before/during/after-resolution subscription arises from the schedule. '
+            'Exactly-once release, never before the result is set, complete result at release, no waiter left, no access to a dead awaiter (heap oracle).', '5/C02'),
     'C03': ('vrt', 'stateless model checking with a C++20 happens-before race oracle on every explored execution',
-            'The threaded harnesses of the other properties are explored with the vector-clock race detector as oracle: no two conflicting plain '
-            'accesses (or access vs free) unordered by the synchronises-with edges the code declares, in any explored interleaving. Non-SC '
-            'executions themselves are not enumerated; a missing release/acquire is nevertheless caught because HB is judged by the C++ rules.', '5/C03'),
+            'The threaded harnesses of the other properties (13 harness TUs: future/promise, waiters, async, mutex, queues, thread pool incl. submitters racing '
+            'with stop, scheduler, generators, signal, publisher incl. two publishing threads, shared_future, adapters, thread-safe storage) are explored with '
+            'the vector-clock race detector as oracle: no two conflicting plain accesses (or access vs free) unordered by the synchronises-with edges the '
+            'code declares, in any explored interleaving. Non-SC executions themselves are not enumerated; a missing release/acquire is nevertheless caught '
+            'because happens-before is judged by the C++ rules, not by what x86 does.', '5/C03'),
     'C07': ('vrt', 'stateless model checking of the implementation (racy plain accesses promoted to scheduling points, to fixpoint)',
             'K=2..4 contenders of every flavour (co_await, blocking, try_lock) and release style (discarded, destructor, awaited, moved to another '
-            'thread), 1-2 rounds: holders<=1 at every point, grants==requests, no resume of a running coroutine, heap clean.', '5/C07'),
+            'thread, handed to a thread pool, assignment over the held ownership, one shared ownership slot), 1-2 rounds: holders<=1 at every point, '
+            'grants==requests, no resume of a running coroutine, heap clean.', '5/C07'),
     'C08': ('vrt', 'stateless model checking of the implementation (same harness family as C07)',
             'Grant order respects the real-time partial order of requests, every request is granted (else deadlock report with schedule), the '
-            'mutex is lockable again after all releases, try_lock never blocks.', '5/C08'),
-    'C04': ('seqx', 'exhaustive enumeration of the start-mode x completion x type x depth product on the real code, reference outcome per cell',
-            'All 600 feasible cells (13 start modes x 4 completion modes x 4 result types x depth 1..3; join() against a suspended chain needs a '
-            'second thread) are executed: body-run counters per level, delivery to the bound party, RAII guards on arguments and locals, value '
-            'lifetime and frame allocation balance are checked in each.', '5/C04'),
+            'mutex is lockable again after all releases (every release style of C07), try_lock never blocks.', '5/C08'),
+    'C04': ('vrt+seqx', 'exhaustive enumeration of the start-mode x completion x type x depth product on the real code, reference outcome per cell; stateless model checking for completions on another thread',
+            'seqx: all feasible cells (13 start modes x 4 completion modes x 5 result types incl. reference x depth 1..3, plus reference-returning coroutines '
+            'bound to value futures) are executed: body-run counters per level, delivery to the bound party, RAII guards on arguments and locals, value '
+            'lifetime and frame allocation balance. vrt: join / start / future+coroutine waiter / thread_pool::run with the gate opened by another thread, '
+            'start(promise) racing a direct call of the same promise, bound 2/3.', '5/C04'),
     'C05': ('seqx', 'exhaustive program enumeration; every event checked online against a reference scheduler (bounded model checking of schedules)',
-            'Every well-formed program of N scripted coroutines over the step alphabet (N=2 x <=3 steps, N=3 x <=2 steps quick) entered from normal '
-            'code and from a coroutine runs on the real library; each start/resume/finish event must be allowed by a reference scheduler that '
-            'encodes run-to-suspension, FIFO order, pause round-robin, exactly-once resumption and full drain, leaving open only what the property leaves open.', '5/C05'),
+            'Every well-formed program of N scripted coroutines over a 17-step alphabet (pause, resolve discard/await, await, lock, release, queue push/pop, '
+            'detach, start(), co_await child, merged suspend points, create_suspend_point; N=2 x <=3 steps, N=3 x <=2 steps quick; more thorough) entered from '
+            'normal code and from a coroutine, plus the wide wake-up family (one resolution readies 1-6 coroutines), runs on the real library; each '
+            'start/resume/finish event must be allowed by a reference scheduler that encodes run-to-suspension, FIFO order, pause round-robin, exactly-once '
+            'resumption and full drain, leaving open only what the property leaves open.', '5/C05'),
     'C06': ('seqx', 'explicit-state breadth-first search over operation histories on real objects, deduplicated by a canonical key',
             'All reachable canonical states (per slot: exists, count, heap flag, capacity; normal / coroutine mode) with up to 14 (quick) / 40 '
-            '(thorough) live handles are visited; after every history plus teardown each handle (a real suspended coroutine) must have been '
-            'resumed exactly once (a second resume is a use-after-free under ASan), typed values preserved, allocation balance 0.', '5/C06'),
-    'C09': ('seqx', 'exhaustive history enumeration against a reference model (item list + waiter list)',
-            'Every history over push/pop/unblock_pop/reap/destroy up to depth 7 (quick) / 9 for queue<int>, queue<MoveOnly>, queue<void>: after '
-            'every step the readiness, value or exception of every pop future, push results and size()/empty() equal the model; destruction '
-            'cancels waiting pops; allocation balance. Threaded part not yet built (see level_note).', '5/C09'),
-    'C10': ('seqx', 'exhaustive history enumeration against a reference model (bounded FIFO + blocked producers + waiting consumers)',
-            'Every history over push/pop/unblock_push for limits 1..4 up to depth 8 (quick) / 11: readiness and result of every push and pop '
-            'future, item order, withdrawal by unblock_push, size()/empty() compared with the model after every step. Threaded part not yet built.', '5/C10'),
+            '(thorough) live handles are visited, operations incl. co_await by a coroutine whose own handle is in the suspend point; after every history plus '
+            'teardown each handle (a real suspended coroutine) must have been resumed exactly once (a second resume is a use-after-free under ASan), typed '
+            'values preserved, allocation balance 0.', '5/C06'),
+    'C09': ('vrt+seqx', 'exhaustive history enumeration against a reference model (item list + waiter list) + stateless model checking of producer/consumer threads',
+            'seqx: every history over push/pop/pop by a re-used callback consumer/unblock_pop/reap/destroy up to depth 7 (quick) / 9 for queue<int>, '
+            'queue<MoveOnly>, queue<void>: after every step the readiness, value or exception of every pop, push results and size()/empty() equal the model; '
+            'destruction cancels waiting pops; allocation balance. vrt: 1-3 producers x 1-3 blocking/coroutine consumers, optional unblock_pop thread: '
+            'multiset conserved, per-producer order per consumer, unblock result consistent, nobody left waiting.', '5/C09'),
+    'C10': ('vrt+seqx', 'exhaustive history enumeration against a reference model (bounded FIFO + blocked producers + waiting consumers) + stateless model checking of threads',
+            'seqx: every history over push/pop/unblock_push for limits 1..4 up to depth 8 (quick) / 11: readiness and result of every push and pop '
+            'future, item order, withdrawal by unblock_push, size()/empty() compared with the model after every step. vrt: limits 1-2, 1-2 blocking producers '
+            'against a blocking / coroutine consumer, and unblock_push on its own thread against the admitting pop: items once, order, size<=limit, nobody stuck.', '5/C10'),
     'C11': ('vrt', 'stateless model checking of the implementation (preemption-bounded DFS + HB-prefix cache)',
             'Pools of 1-3 workers, 1-2 submissions of every kind (co_await pool, run(fn) small/large closure, run_detached, co_await pool(future), '
-            'run(async), resume(suspend_point)), stop()/destructor/self-stop at every schedule-chosen moment: each job ran once on a worker or was '
-            'cancelled observably once, stop() returns in every schedule, closures freed, heap clean. Lost resume() jobs are a recorded known finding.', '5/C11'),
-    'C12': ('seqx', 'exhaustive history / script enumeration under virtual time against a multiset model',
-            'Manual mode: every history over schedule/cancel/cancel(e)/remove/get_expired (15 operations, depth 5 full alphabet, 6-8 reduced) against '
-            'a multiset of pending sleeps. Single-thread start(awaitable) mode under virtual time: every script of 1-3 sleepers (durations, second '
-            'sleep, cancel of any sleeper at any time, interval() with stop token): never early, not late while idle, deadline order, exactly once, '
-            'cancel result, destruction cancels the rest. Thread / pool mode not yet built.', '5/C12'),
-    'C13': ('seqx', 'exhaustive enumeration of body scripts x consumer access-style sequences',
-            'Every body script over {yield, await ready, await pending, throw} (<=3 quick / 4) x every sequence of access styles (next/value, '
+            'run(async), resume(suspend_point)), stop()/destructor/self-stop/submitter racing with stop/job deleting its own pool at every schedule-chosen '
+            'moment, dependent jobs, live-pool resume of several handles: each job ran once on a worker or was cancelled observably once, stop() returns in every '
+            'schedule, closures freed, heap clean. Lost resume() jobs are a recorded known finding.', '5/C11'),
+    'C12': ('vrt+seqx', 'exhaustive history / script enumeration under virtual time against a multiset model + stateless model checking of thread / pool mode with a clock pseudo-thread',
+            'seqx manual mode: every history over schedule/cancel/cancel(e)/remove/get_expired (15 operations, depth 5 full alphabet, 6-8 reduced) against '
+            'a multiset of pending sleeps, plus heap-shape histories (5-7 deadlines in every order). Single-thread start(awaitable) mode under virtual time: every '
+            'script of 1-3 sleepers (sub-millisecond durations, second sleep, cancel of any sleeper at any time, interval() with stop token): never early, not '
+            'late while idle, deadline order, exactly once, cancel result, destruction cancels the rest. vrt: scheduler in its own thread and in a thread pool '
+            'against a client thread, early / idle destruction, bound 2/3.', '5/C12'),
+    'C13': ('vrt+seqx', 'exhaustive enumeration of body scripts x consumer access-style sequences + stateless model checking of blocking access against another thread',
+            'seqx: every body script over {yield, await ready, await pending, throw} (<=3 quick / 4) x every sequence of access styles (next/value, '
             'co_await next, call+wait, call+co_await has_value, range-for, early destroy; <=4 / 5), with and without argument: observed '
-            'sequence == yielded sequence then one end indication, exception at its position, arguments, locals destroyed once. Blocking styles against '
-            'pending awaits (another thread completes them) not yet built.', '5/C13'),
-    'C14': ('seqx', 'exhaustive enumeration of source multisets x consumer styles x stop points',
-            'Every multiset of 0..3 (quick) / 0..5 scripted sources (empty, finite 1-3, infinite, throwing at 0/1, asynchronous) x consumer style pairs x '
+            'sequence == yielded sequence then one end indication, exception at its position, arguments, locals destroyed once. vrt: blocking styles while '
+            'another thread completes the awaited operations (two asynchronous steps in a row).', '5/C13'),
+    'C14': ('vrt+seqx', 'exhaustive enumeration of source multisets x consumer styles x stop points + stateless model checking with asynchronous sources on other threads',
+            'seqx: every multiset of 0..3 (quick) / 0..5 scripted sources (empty, finite 1-3, infinite, throwing at 0/1, asynchronous) x consumer style pairs x '
             'argument / no argument x stop-after: multiset union, per-source order, ends iff all ended, exception reported without losing values, '
-            'argument routing, source locals and allocations released.', '5/C14'),
-    'C15': ('seqx', 'exhaustive history enumeration against a reference model (set of waiting listeners)',
-            'Every history of depth 5 (quick) / 6 over listener arrival/leave (3 listeners), connect callback (true/false), collector calls by '
-            'value/rvalue/lvalue, copy/drop of collector and signal handles, hook_up: each call reaches exactly the waiting set once each; '
-            'last handle gone resumes every waiter with await_canceled_exception and deletes callbacks; awaiting a disconnected emitter fails at once.', '5/C15'),
+            'argument routing, source locals and allocations released. vrt: asynchronous sources opened by other threads (once and twice per source), blocking '
+            'consumer, destruction while in flight.', '5/C14'),
+    'C15': ('vrt+seqx', 'exhaustive history enumeration against a reference model (set of waiting listeners) + stateless model checking of listener / collector threads',
+            'seqx: every history of depth 5 (quick) / 6 over listener arrival/leave (3 listeners), connect callback (true/false), collector calls by '
+            'value (in place, const lvalue)/rvalue/lvalue on a value type with a poisoning destructor, copy/drop of collector and signal handles, hook_up: each '
+            'call reaches exactly the waiting set once each with that value; last handle gone resumes every waiter with await_canceled_exception and deletes '
+            'callbacks. vrt: listeners subscribing on other threads while the collector thread calls and drops; hook_up with a generator that emits during registration.', '5/C15'),
     'C16': ('vrt+seqx', 'exhaustive history enumeration against a cursor model + stateless model checking of publisher/subscriber threads',
-            'seqx: every history (depth 5-6 quick, 7-8 thorough) over publish/batch/subscribe(recent, at, copy)/await/next_ready/kick/leave/close for '
-            '(min,max) in 1..3 (1..5) and unlimited x three modes against the reference of DESIGN 5/C16. vrt: publisher thread against coroutine, '
-            'blocking and polling subscribers, bound 2/3.', '5/C16'),
+            'seqx: every history (depth 5-6 quick, 7-8 thorough, and depth 4-5 continuations of five non-initial prefixes) over publish/batch/subscribe(recent, at, '
+            'copy)/await/next_ready/kick/leave/close for (min,max) in 1..3 (1..5) and unlimited x three modes against the reference of DESIGN 5/C16. vrt: one and '
+            'two publisher threads against coroutine, blocking and polling subscribers, bound 2/3.', '5/C16'),
     'C17': ('vrt', 'stateless model checking of the implementation (bound 2/3, all interleavings for one handle thread)',
             'Resolver thread (value/exception/drop) against 1-2 threads running scripts over copy/await/wait/poll/drop with the main handle dropped '
-            'early or late, for every constructor (promise function, future function pending/ready, default + get_promise): same result for all, '
-            'each awaiter once, stored value destroyed exactly once after resolution (Counted balance, heap oracle).', '5/C17'),
-    'C18': ('seqx', 'exhaustive configuration product on the real code',
-            'adapter (callback_await, callback_await_alloc, make_promise, make_promise+storage, discard, six future_conv shapes, call_fn_future_awaiter) '
-            'x outcome (value, exception, drop) x timing (before / after registration on the same thread) x converter returns/throws: completion count, '
-            'outcome, outer future content, helper freed once. Concurrent resolution on another thread not yet built.', '5/C18'),
-    'C19': ('seqx', 'exhaustive history enumeration per storage policy with a spy storage',
-            'Every history of depth 5 (quick) / 7 over create(S/M/L) and finish(i) within each policy discipline for 8 policies: blocks disjoint among '
-            'live frames (spy + canaries), dealloc matches alloc, heap fallback freed once, no allocation after warm-up, extra object constructed / usable / '
-            'destroyed once. Two-thread part for reusable_storage_mtsafe not yet built.', '5/C19'),
-    'C20': ('seqx', 'exhaustive enumeration of program families inside a measured region (global operator new counter)',
-            'future/promise with 0-3 coroutine-type waiters, callback awaiter, every outcome and three value types; mutex try/blocking paths; suspend '
-            'points with 0-4 handles and four disposals; synchronous generator stepping in three styles; every scheduling program of N=2 x <=3 / N=3 x <=2 '
-            'steps over pause/resolve/await/lock/release with frames in reusable storage: operator new count in the region is 0.', '5/C20'),
+            'early or late, for every constructor (promise function, future function pending/ready, default + get_promise, functions that start the resolver '
+            'themselves): same result for all, each awaiter once, stored value destroyed exactly once after resolution (Counted balance, heap oracle).', '5/C17'),
+    'C18': ('vrt+seqx', 'exhaustive configuration product on the real code + stateless model checking (all interleavings) of concurrent resolution',
+            'seqx: adapter (callback_await, callback_await_alloc, with lvalue awaitable and with stateful rvalue factory from normal code / from a coroutine, '
+            'make_promise, make_promise+storage, discard, six future_conv shapes, call_fn_future_awaiter, two-step re-arming converter) x outcome (value, '
+            'exception, drop) x timing (before / after registration) x converter returns/throws: completion count, outcome, outer future content, helper freed '
+            'once. vrt: the same adapters with the source resolved concurrently on another thread, all interleavings.', '5/C18'),
+    'C19': ('vrt+seqx', 'exhaustive history enumeration per storage policy with a spy storage + stateless model checking of two/three threads on the thread-safe storage',
+            'seqx: every history of depth 5 (quick) / 7 over create(S/M/L), finish(i) and moves of the storage object within each policy discipline for 12 policy '
+            'configurations, plus stack_storage with pre-initialised size states: blocks disjoint among live frames (spy + canaries), at least as large as '
+            'requested (ASan on exactly sized buffers), dealloc matches alloc, heap fallback freed once, no allocation after warm-up, extra object constructed / '
+            'usable / destroyed once at its own address. vrt with race oracle: 2-3 threads creating and finishing frames on one reusable_storage_mtsafe.', '5/C19'),
+    'C20': ('vrt+seqx', 'exhaustive enumeration of program families inside a measured region (global operator new counter) + stateless model checking of cross-thread programs with an allocation counter',
+            'seqx: future/promise with 0-3 coroutine-type waiters plus callback awaiter and sync_awaiters, every outcome and three value types; callback_await on '
+            'stack_storage; moved frame storage; mutex try/blocking paths; suspend points with 0-4 handles and four disposals; synchronous generator stepping in '
+            'three styles; every scheduling program of N=2 x <=3 / N=3 x <=2 steps over pause/resolve/await/lock/release with frames in reusable storage: '
+            'operator new count in the region is 0. vrt: five cross-thread programs (blocked threads, mutex contention), allocation delta 0 in every interleaving.', '5/C20'),
 }
 
 
@@ -112,6 +131,8 @@ def main():
         if pid in claims:
             eng, tech, text, ref = claims[pid]
             note = VRT_NOTE if eng == 'vrt' else SEQ_NOTE if eng == 'seqx' else VRT_NOTE + ' ' + SEQ_NOTE
+            if pid == 'C19':
+                note += ' The sequential C19 harness is built with -fno-sanitize=alignment (promise_extra_storage places its object without regard to alignment; not part of C19).'
             checks.append(dict(
                 property_id=pid,
                 quick_cmd=f'python3 tools/check.py {pid} --tier quick',
